@@ -386,7 +386,9 @@ def target_of(qp, inst):
             free = [w for w in reg if w not in zero]
             mask = _valid_mask(inst, free)
             Vin = domain_isometry(reg, zero, mask)
-            if native:
+            if getattr(inst, "perm", None) is not None:
+                Uin, how = _perm_columns(inst, reg, zero, mask), "documented-arithmetic"
+            elif native:
                 M = np.asarray(qp.matrix(op, wire_order=reg), dtype=complex)
                 if M.ndim != 2:
                     raise Unsupported("batched target matrix")
@@ -394,6 +396,13 @@ def target_of(qp, inst):
             else:
                 Uin, how = _legacy_columns(qp, op, reg, Vin), "legacy-decomposition"
             t = dict(wires=reg, Vin=Vin, Uin=Uin, how=how, work=work, restricted=bool(zero) or mask is not None)
+            if how == "documented-arithmetic":
+                # does the operator's own (legacy) decomposition agree with the documented arithmetic?  (diagnostic for the
+                # mechanism tag: if not, every rule that emits the operator itself inherits the discrepancy)
+                try:
+                    t["legacy_agrees"] = bool(np.max(np.abs(_legacy_columns(qp, op, reg, Vin) - Uin)) < 1e-8)
+                except Exception:  # noqa: BLE001
+                    t["legacy_agrees"] = None
         inst.cache["target"] = t
         return t
     # ---- symbolic variant: R-MAT on the base target
@@ -441,6 +450,28 @@ def target_of(qp, inst):
     t = dict(wires=reg, Vin=Vin, Uin=Uin, how=how, work=work, restricted=b["restricted"])
     inst.cache["target"] = t
     return t
+
+
+def _perm_columns(inst, reg, zero, mask):
+    """Independent oracle for arithmetic templates: the documented classical action on computational basis states
+    (auxiliary wires in |0> and restored).  Columns ordered like ``domain_isometry``."""
+    free = [w for w in reg if w not in zero]
+    n = len(reg)
+    cols = []
+    for i in range(2 ** len(free)):
+        if mask is not None and not mask[i]:
+            continue
+        bits = {w: 0 for w in reg}
+        for k, w in enumerate(free):
+            bits[w] = (i >> (len(free) - 1 - k)) & 1
+        out = inst.perm(dict(bits))
+        idx = 0
+        for w in reg:
+            idx = 2 * idx + int(out[w])
+        v = np.zeros(2**n, dtype=complex)
+        v[idx] = 1
+        cols.append(v)
+    return np.array(cols).T
 
 
 def _legacy_columns(qp, op, reg, Vin):
